@@ -189,6 +189,11 @@ def text_consumers_rule(ctx, rule: str):
                 ok = True
             elif isinstance(par, ast.Attribute) and par.attr in ("upper", "lower"):
                 ok = True
+            elif isinstance(par, (ast.If, ast.While, ast.IfExp, ast.BoolOp)) or (isinstance(par, ast.UnaryOp) and isinstance(par.op, ast.Not)):
+                ok = True  # emptiness test
+            elif isinstance(par, ast.Compare) and all(isinstance(x, ast.Constant) for x in [par.left] + par.comparators if x is not n) \
+                    and all(isinstance(o, (ast.Eq, ast.NotEq, ast.Is, ast.IsNot)) for o in par.ops):
+                ok = True  # comparison with a constant
             n_uses += 1
             r.ob(rule, "%s#%s@%s" % (fi.qualname, n.id, re.sub(r"\W+", "", fi.module.segment(par) or "")[:50]), ok,
                  "the searched text is inspected outside the compiled pattern: `%s` (a shortcut on the raw text has its own letter-case and IUPAC semantics)"
